@@ -172,12 +172,12 @@ static bool corruptible(uint16_t k) {
 static bool alloc_faultable(uint16_t k) { return k != S_ISTREAM && k != S_OSTREAM; }
 
 struct FamW { int w[FAM__COUNT]; };
-//                        BC BA BR BD  MC MA MT MM MS MD  SC SM SS SD SX VV
-static const FamW W_C05 = {{6, 12, 4, 4, 0, 0, 0, 0, 0, 0, 0, 0, 0, 0, 0, 0}};
-static const FamW W_C16 = {{0, 0, 0, 0, 2, 12, 4, 5, 3, 2, 1, 0, 0, 0, 0, 0}};
-static const FamW W_C04 = {{2, 1, 0, 1, 1, 1, 0, 0, 0, 0, 6, 8, 4, 12, 4, 2}};
-static const FamW W_C18 = {{3, 1, 0, 1, 1, 3, 1, 1, 1, 0, 6, 9, 2, 8, 2, 1}};
-static const FamW W_C19 = {{4, 6, 1, 2, 2, 6, 1, 2, 2, 1, 5, 6, 2, 9, 2, 2}};
+//                        BC BA BR BD  MC MA MT MM MS MD  SC SM SS SD SX VV BV
+static const FamW W_C05 = {{6, 12, 4, 4, 0, 0, 0, 0, 0, 0, 0, 0, 0, 0, 0, 0, 0}};
+static const FamW W_C16 = {{0, 0, 0, 0, 2, 12, 4, 5, 3, 2, 1, 0, 0, 0, 0, 0, 0}};
+static const FamW W_C04 = {{2, 1, 0, 1, 1, 1, 0, 0, 0, 0, 6, 8, 4, 12, 4, 2, 1}};
+static const FamW W_C18 = {{3, 1, 0, 1, 1, 3, 1, 1, 1, 0, 6, 9, 2, 8, 2, 1, 3}};
+static const FamW W_C19 = {{4, 6, 1, 2, 2, 6, 1, 2, 2, 1, 5, 6, 2, 9, 2, 2, 3}};
 
 Plan gen_plan(int prop, uint64_t runseed) {
     Plan p;
